@@ -331,16 +331,27 @@ func ruleDrainChildren(c *eng.Ctx) {
 				if !ok {
 					return
 				}
-				if _, isInd := eng.Induction(ia.Index); !isInd {
+				ph, isInd := eng.Induction(ia.Index)
+				if !isInd {
+					// a loop that runs from the last element down to the first drains the collection just as well
+					if p2, ok := ia.Index.(*ssa.Phi); ok {
+						for _, e := range p2.Edges {
+							if b, ok := e.(*ssa.BinOp); ok && b.Op == token.SUB && b.X == ssa.Value(p2) {
+								if k, isC := eng.ConstInt(b.Y); isC && k == 1 {
+									ph, isInd = p2, true
+								}
+							}
+						}
+					}
+				}
+				if !isInd {
 					return
 				}
 				for v := range eng.Slice(ia.X, nil) {
 					fr, isField := eng.AsField(v)
 					par, isParam := v.(*ssa.Parameter)
 					if (isField && fr.Field == field) || (isParam && par.Name() == field) {
-						if ph, ok := eng.Induction(ia.Index); ok {
-							hdrs = append(hdrs, ph.Block())
-						}
+						hdrs = append(hdrs, ph.Block())
 					}
 				}
 			})
@@ -380,6 +391,25 @@ func ruleDrainChildren(c *eng.Ctx) {
 				}
 				if all {
 					okDom = true
+				}
+				// the walk as a loop over an explicit stack of pending items: the collection is drained once per item
+				// when its loop lies on every way round that outer loop
+				for _, outer := range enclosingLoopHeaders(hdr) {
+					if outer == hdr {
+						continue
+					}
+					everyTrip, back := true, 0
+					for _, pr := range outer.Preds {
+						if outer.Dominates(pr) {
+							back++
+							if !hdr.Dominates(pr) {
+								everyTrip = false
+							}
+						}
+					}
+					if back > 0 && everyTrip {
+						okDom = true
+					}
 				}
 			}
 			c.Check(okDom, R, key, fn.Pos(), "iterated on every path", "a return can be reached without iterating "+field+": that content is dropped on that path (e.g. a list item with only a nested list and no text of its own loses the nested list)")
